@@ -1930,19 +1930,19 @@ func (s *swamp) IncrementFloat32(key string, f float32, condition *IncrementFloa
 				return contentFloat, false, s.createMetaForIncrementResponse(treasureObj), nil
 			}
 		case RelationalOperatorGreaterThan:
-			if contentFloat <= condition.Value {
+			if !(contentFloat > condition.Value) {
 				return contentFloat, false, s.createMetaForIncrementResponse(treasureObj), nil
 			}
 		case RelationalOperatorGreaterThanOrEqual:
-			if contentFloat < condition.Value {
+			if !(contentFloat >= condition.Value) {
 				return contentFloat, false, s.createMetaForIncrementResponse(treasureObj), nil
 			}
 		case RelationalOperatorLessThan:
-			if contentFloat >= condition.Value {
+			if !(contentFloat < condition.Value) {
 				return contentFloat, false, s.createMetaForIncrementResponse(treasureObj), nil
 			}
 		case RelationalOperatorLessThanOrEqual:
-			if contentFloat > condition.Value {
+			if !(contentFloat <= condition.Value) {
 				return contentFloat, false, s.createMetaForIncrementResponse(treasureObj), nil
 			}
 		}
@@ -2005,19 +2005,19 @@ func (s *swamp) IncrementFloat64(key string, f float64, condition *IncrementFloa
 				return contentFloat, false, s.createMetaForIncrementResponse(treasureObj), nil
 			}
 		case RelationalOperatorGreaterThan:
-			if contentFloat <= condition.Value {
+			if !(contentFloat > condition.Value) {
 				return contentFloat, false, s.createMetaForIncrementResponse(treasureObj), nil
 			}
 		case RelationalOperatorGreaterThanOrEqual:
-			if contentFloat < condition.Value {
+			if !(contentFloat >= condition.Value) {
 				return contentFloat, false, s.createMetaForIncrementResponse(treasureObj), nil
 			}
 		case RelationalOperatorLessThan:
-			if contentFloat >= condition.Value {
+			if !(contentFloat < condition.Value) {
 				return contentFloat, false, s.createMetaForIncrementResponse(treasureObj), nil
 			}
 		case RelationalOperatorLessThanOrEqual:
-			if contentFloat > condition.Value {
+			if !(contentFloat <= condition.Value) {
 				return contentFloat, false, s.createMetaForIncrementResponse(treasureObj), nil
 			}
 		}
